@@ -365,11 +365,12 @@ func (c *Corpus) buildMKVS() {
 		var v syncer.ProofVerifier
 		_, _ = v.VerifyProof(ctx, c.root.Hash, &p)
 		// The prover chooses the untrusted root: verification against it goes past the sanity check.
-		_, _ = v.VerifyProof(ctx, p.UntrustedRoot, &p)
+		_, verr := v.VerifyProof(ctx, p.UntrustedRoot, &p)
 		_, _ = v.VerifyProofToWriteLog(ctx, p.UntrustedRoot, &p)
 		var rsp syncer.ProofResponse
 		_ = cbor.Unmarshal(cbor.Marshal(&syncer.ProofResponse{Proof: p}), &rsp)
-		return true
+		// "Accepted" for proofs means: decoded and verified against the root the prover named.
+		return verr == nil
 	}
 	c.add(&Target{Name: "mkvs.proof", Family: "cbor", Valid: proofs, Call: proofCall, Unders: []string{"entries"}})
 	c.add(&Target{Name: "mkvs.proof.entries", Family: "bin", Valid: proofs, Call: proofCall, Kinds: append(append([]string{}, BinKinds...), "deep", "deep", "nilentries"),
